@@ -43,7 +43,8 @@ REQUIRED = ('decisions_checked', 'raise_intervals_probed', 'cap_refusals',
             'fold_warned_cash', 'rounds_with_raise',
             'pot_limit_probes', 'fixed_limit_probes',
             'pot_limit_probes_raked_pot',
-            'trees_completed', 'explored_nodes')
+            'trees_completed', 'explored_nodes',
+            'forks')
 
 BETTING = ('Folding', 'CheckingOrCalling', 'BringInPosting',
            'CompletionBettingOrRaisingTo')
@@ -283,6 +284,8 @@ def cfg_filter(cfg, rng):
 
 
 def pol_tweak(pol, cfg, rng):
+    if rng.random() < 0.4:
+        pol['fork_p'] = 0.03     # continue on a deepcopy mid-hand
     pol['policy'] = rng.choice(['aggressive', 'aggressive', 'allin',
                                 'uniform', 'passive', 'foldy'])
     pol['deal'] = 'default'
